@@ -495,6 +495,9 @@ func writeEvidence(ck Check, tier string, seed int64, t *Result, parts map[strin
 		"violations":  viol,
 	}
 	dir := filepath.Join(verifDir(), "evidence")
+	if d := os.Getenv("VERIF_EVIDENCE_DIR"); d != "" {
+		dir = d // runs against /repo + VERIF_PATCH must not overwrite the evidence of the real tree
+	}
 	os.MkdirAll(dir, 0o755)
 	b, _ := json.MarshalIndent(ev, "", " ")
 	tmp := filepath.Join(dir, ck.ID+".json.tmp")
